@@ -210,7 +210,11 @@ def run_engine_gen(engine, tier, seed, outpath, extra=None):
                     os.remove(part)
         bad = [r for r in res if r[0] != 0]
         return (bad[0] if bad else (0, ""))
-    env = {"VERIF_SEED": str(seed)}
+    # the library must not take configuration from the environment: set the variables other StatsD /
+    # Datadog clients read, so that a change which starts reading one shows up as a difference
+    env = {"VERIF_SEED": str(seed), "DD_ENTITY_ID": "verif-entity", "DD_ENV": "verif", "DD_SERVICE": "verif", "DD_VERSION": "9",
+           "DD_TAGS": "verif:1", "DD_AGENT_HOST": "192.0.2.1", "DD_DOGSTATSD_PORT": "1", "STATSD_HOST": "192.0.2.1",
+           "DD_DOGSTATSD_URL": "udp://192.0.2.1:1", "DD_EXTERNAL_ENV": "verif"}
     limit = 900 if tier == "quick" else 6 * 3600
     with open(outpath, "w") as f:
         try:
